@@ -149,10 +149,12 @@ def sc_decorate_and_check():
             except BeartypeCallHintViolation:
                 out.append('violation')
             return out
+        if _STATE.get('quick'):
+            return [t1, lambda: (is_bearable([P()], h), is_bearable(3, h))]
         return [t1, lambda: (is_bearable([P()], h), is_bearable(3, h)), t1]
 
     def judge(res):
-        want = [[True, True, 'violation'], (True, False), [True, True, 'violation']]
+        want = [[True, True, 'violation'], (True, False), [True, True, 'violation']][:len(res)]
         if res != want:
             return f'decorate || check || decorate over one fresh hint answered {res}, sequentially {want}'
     return make, judge
@@ -255,12 +257,24 @@ def run(ctx):
     assert sched.selftest()
     inv = sched.inventory()
     nfun = inv.pop('__functions__')
+    _STATE['C6'] = c06.confs()
+    _STATE['quick'] = ctx.quick
+    _STATE['pristine'] = c06.snapshot()
+    # warm-up first (imports every lazily imported beartype module, fills the tables shared by all fresh inputs), THEN
+    # replace the locks, so that no module imported later can hold a real lock
+    with warnings.catch_warnings():
+        warnings.simplefilter('ignore')
+        for name, factory in SCENARIOS.items():
+            make, judge = factory()
+            for _ in range(2):
+                for f in make():
+                    f()
+    c06.restore(_STATE['pristine'])
     nlocks = sched.replace_locks()
     assert nlocks >= 4, f'only {nlocks} beartype locks found to replace'
-    _STATE['C6'] = c06.confs()
-    _STATE['pristine'] = c06.snapshot()
+    assert sched.replace_locks() == 0, 'a real lock survived replacement'
     bound = 1 if ctx.quick else 2
-    cap = 2500 if ctx.quick else 40000
+    cap = 4000 if ctx.quick else 200000
     tot = {'executions': 0, 'points_max': 0, 'deadlocks': 0, 'divergences': 0}
     per = {}
     outcomes = set()
@@ -268,16 +282,14 @@ def run(ctx):
         warnings.simplefilter('ignore')
         for name, factory in SCENARIOS.items():
             make, judge = factory()
-            # warm-up: two sequential executions (fills the tables shared by all fresh inputs: int, None, typing internals)
-            for _ in range(2):
-                for f in make():
-                    f()
 
             def check(s, name=name, judge=judge):
                 errs = [e for e in s.errors if e is not None]
                 sig = None
                 if isinstance(s.fatal, sched.Deadlock):
                     sig, what = f'deadlock:{name}', str(s.fatal)
+                elif isinstance(s.fatal, sched.Hang):
+                    raise AssertionError(f'harness: {s.fatal} [scenario {name}; schedule {s.choices[:80]}]')
                 elif s.fatal is not None:
                     sig, what = f'{type(s.fatal).__name__}:{name}', str(s.fatal)
                 elif errs:
